@@ -25,7 +25,8 @@ MARKER_IMPUTERS = ('ConstraintViolationImputer', 'LazyConstraintViolationImputer
 
 
 def strategy(tier):
-    return st.fixed_dictionaries({'ms': matspec.mat_spec(max_side=3, max_patterns=4), 'vseed': st.integers(0, 2**31)})
+    return st.fixed_dictionaries({'ms': st.one_of(matspec.mat_spec(max_side=3, max_patterns=4),
+                                                  matspec.pattern_family_spec()), 'vseed': st.integers(0, 2**31)})
 
 
 def registry():
@@ -125,6 +126,7 @@ def check_combo(ms, rs, pats, exist_objs, refs, combo, vseed, res, only=None):
         all_dv = None
 
     imputed = False
+    n_viol0 = len(res.violations)
     used_values = [set() for _ in range(n_dv)]
     is_marker_imp = imp_name in MARKER_IMPUTERS
     for i_pat, (pat, ex, ref) in enumerate(zip(pats, exist_objs, refs)):
@@ -214,9 +216,9 @@ def check_combo(ms, rs, pats, exist_objs, refs, combo, vseed, res, only=None):
                         raise
                     res.add(viol('all_design_vectors_exception', f'{tag} {name} {type(e).__name__}: {e}',
                                  sig=f'all_design_vectors_exception:{exc_sig(e)}', data=dict(d, msg=str(e)[:300])))
-        if len(res.violations) > 3:
+        if len(res.violations)-n_viol0 > 2:
             break
-    if exhaustive and not res.violations and not is_marker_imp and only is None:
+    if exhaustive and len(res.violations) == n_viol0 and not is_marker_imp and only is None:
         for i, vals in enumerate(used_values):
             if len(vals) < 2:
                 res.add(viol('variable_with_one_used_value', f'{tag} {name} variable {i} uses {sorted(vals)} of '
@@ -247,7 +249,7 @@ def check_case(case):
     if 'combo' in case:
         combos = [c for c in combos if [c[0], c[1], c[2]] == list(case['combo'])]
     sizes = [len(r) for r in refs]
-    res.classes = [f'{len(ms["src"])}x{len(ms["tgt"])}', f'patterns{len(pats)}']
+    res.classes = [f'{len(ms["src"])}x{len(ms["tgt"])}', f'patterns{len(pats)}', 'family_'+ms.get('family', 'random')]
     n_eval = 0
     n_nontrivial = 0
     keys = []
@@ -261,8 +263,6 @@ def check_case(case):
         if imputed and rich:
             n_nontrivial += 1
             keys.append(jhash([ms, combo[0], combo[1], combo[2]]))
-        if len(res.violations) > 12:
-            break
     res.evaluations = n_eval
     res.nontrivial = n_nontrivial > 0
     res.classes = sorted(set(res.classes))
